@@ -7,6 +7,7 @@ compared as a whole and never used in arithmetic, same-residue test by full iden
 from __future__ import annotations
 
 import ast
+import copy
 import json
 import os
 from typing import List
@@ -106,7 +107,30 @@ def gap_count_use(fn: ast.AST, root: ast.BinOp, par: dict, fm) -> "dict | None":
             problems.append("its value is used other than as a count (range, repetition of a constant sequence, comparison)")
     # consecutive members of one sequence
     pair = None
+    seq_name = None
+    # by value: whatever expression pairs them up (zip(S, S[1:]), zip([None] + S, S), zip(S[:-1], S[1:]), pairwise(S) ...) is
+    # evaluated on a list of four distinct members: every (b, a) it yields must be (S[k-1], S[k]) (or (None, S[0]))
     for n in astq.walk_no_nested(fn):
+        if isinstance(n, (ast.For, ast.comprehension)) and isinstance(n.target, ast.Tuple) and [e.id if isinstance(e, ast.Name) else None for e in n.target.elts] == [b_, a_]:
+            free = sorted({x.id for x in ast.walk(n.iter) if isinstance(x, ast.Name)} - {"zip", "list", "tuple", "itertools", "pairwise", "len", "range", "None"})
+            if len(free) != 1:
+                continue
+            S = ["s0", "s1", "s2", "s3"]
+            try:
+                from sa.consteval import Folder
+
+                env = {free[0]: list(S)}
+                if "pairwise" in norm(n.iter):
+                    env["pairwise"] = lambda xs: list(zip(list(xs), list(xs)[1:]))
+                got = list(Folder(None, "tertiary", env).fold(ast.fix_missing_locations(copy.deepcopy(n.iter)))) if "itertools" not in norm(n.iter) else None
+            except Exception:
+                got = None
+            if got and all(isinstance(g, tuple) and len(g) == 2 for g in got) and all((g[1] in S and ((S.index(g[1]) > 0 and g[0] == S[S.index(g[1]) - 1]) or (S.index(g[1]) == 0 and g[0] is None))) for g in got) and [g[1] for g in got if g[0] is not None] == S[1:]:
+                pair = f"{norm(n.iter)}"
+                seq_name = free[0]
+    for n in astq.walk_no_nested(fn):
+        if pair is not None:
+            break
         if isinstance(n, (ast.For, ast.comprehension)) and isinstance(n.target, ast.Tuple):
             names = [e.id if isinstance(e, ast.Name) else None for e in n.target.elts]
             m = astq.match(n.iter, "zip(S_, S_[1:])")
@@ -159,6 +183,20 @@ def gap_count_use(fn: ast.AST, root: ast.BinOp, par: dict, fm) -> "dict | None":
     if not any(norm(g.test) == "self.find_gaps" and g.polarity for g in fs):
         problems.insert(0, "it is not guarded by self.find_gaps")
     same = any((norm(g.test) in (f"{a_}.chain != {b_}.chain", f"{b_}.chain != {a_}.chain") and not g.polarity) or (norm(g.test) in (f"{a_}.chain == {b_}.chain", f"{b_}.chain == {a_}.chain") and g.polarity) for g in fs)
+    if not same and seq_name is not None:
+        # the sequence is one group of itertools.groupby(..., key=<the chain>): all of its members are of one chain
+        d = [v for s2, v in astq.assignments(fn, seq_name) if v is not None]
+        g = d[0] if len(d) == 1 else None
+        if isinstance(g, ast.Call) and isinstance(g.func, ast.Name) and g.func.id in ("list", "tuple") and len(g.args) == 1:
+            g = g.args[0]
+        gname = g.id if isinstance(g, ast.Name) else seq_name
+        for n in astq.walk_no_nested(fn):
+            if isinstance(n, (ast.For, ast.comprehension)) and isinstance(n.target, ast.Tuple) and len(n.target.elts) == 2 and isinstance(n.target.elts[1], ast.Name) and n.target.elts[1].id == gname:
+                m = astq.match(n.iter, "itertools.groupby(S_, key=K_)") or astq.match(n.iter, "groupby(S_, key=K_)")
+                if m and isinstance(m["K_"], ast.Lambda) and len(m["K_"].args.args) == 1 and norm(m["K_"].body) == f"{m['K_'].args.args[0].arg}.chain":
+                    same = True
+                elif m and norm(m["K_"]) in ("operator.attrgetter('chain')", "attrgetter('chain')"):
+                    same = True
     if not same:
         problems.append("the two residues are not known to be of one chain at that point")
     return {"core": norm(core), "pair": pair, "use": use, "problems": problems}
@@ -175,7 +213,16 @@ def derived_atom_lists(fn: ast.AST) -> dict:
             return True
         if isinstance(e, ast.Name) and (e.id in derived or e.id == "residue_atoms"):
             return True
-        if isinstance(e, (ast.ListComp, ast.GeneratorExp)) and len(e.generators) == 1 and isinstance(e.generators[0].target, ast.Name) and isinstance(e.elt, ast.Name) and e.elt.id == e.generators[0].target.id:
+        if (
+            isinstance(e, (ast.ListComp, ast.GeneratorExp))
+            and len(e.generators) == 1
+            and isinstance(e.generators[0].target, ast.Name)
+            and (
+                (isinstance(e.elt, ast.Name) and e.elt.id == e.generators[0].target.id)
+                # one value per atom (its coordinates, its name ...): still one member per atom, in file order
+                or (isinstance(e.elt, ast.Attribute) and isinstance(e.elt.value, ast.Name) and e.elt.value.id == e.generators[0].target.id and e.elt.attr not in CONSTANT_FIELDS)
+            )
+        ):
             t = e.generators[0].target.id
             # a filter that pins one name (`atom.name == X`) leaves the atoms of that name: taking the first is find_atom's own rule
             if any(astq.match(c, f"{t}.name == X_") is not None or astq.match(c, f"X_ == {t}.name") is not None for c in e.generators[0].ifs):
@@ -385,16 +432,209 @@ def run(chk) -> None:
     except ImportError:
         pass
     check_visit_order(chk)
+    try:
+        from checks import c05e
+
+        chk.robust |= {"format-same-atoms"}
+        c05e.check_format_agreement(chk)
+    except ImportError:
+        pass
     chk.floor("positional-atom", 3)
     chk.floor("identity-arithmetic", 3)
+
+
+_assigned_outside: dict = {}
+
+
+def _note_outside(fn: ast.AST, loop: ast.AST) -> None:
+    inside = {id(n) for n in ast.walk(loop)}
+    names = set()
+    for n in ast.walk(fn):
+        if isinstance(n, ast.Name) and isinstance(n.ctx, ast.Store) and id(n) not in inside:
+            names.add(n.id)
+    _assigned_outside[id(loop)] = names
+
+
+def _fcfs_reads(loop: ast.AST) -> dict:
+    """Why the iterations of a loop are not independent of each other: {name: the construct that makes an earlier iteration decide a
+    later one}.  A guard (if / conditional expression / comprehension filter / while) that reads a container the same loop fills;
+    `X.setdefault(k, v)` (the first value stays); a `break` of the loop itself (what was visited before it counts, the rest does not);
+    a scalar carried from one iteration to the next and read by a guard before it is assigned (running best: ties go to the first)."""
+    filled = set()
+    for x in ast.walk(loop):
+        if isinstance(x, ast.Call) and isinstance(x.func, ast.Attribute) and x.func.attr in ("add", "append", "update", "extend", "setdefault", "insert") and isinstance(x.func.value, ast.Name):
+            filled.add(x.func.value.id)
+        elif isinstance(x, (ast.Assign, ast.AugAssign)):
+            for t in x.targets if isinstance(x, ast.Assign) else [x.target]:
+                if isinstance(t, ast.Subscript) and isinstance(t.value, ast.Name):
+                    filled.add(t.value.id)
+    read = {}
+    for x in ast.walk(loop):
+        tests = []
+        if isinstance(x, (ast.If, ast.IfExp, ast.While)):
+            tests.append(x.test)
+        elif isinstance(x, ast.comprehension):
+            tests.extend(x.ifs)
+        for t in tests:
+            for c in ast.walk(t):
+                if isinstance(c, ast.Compare) and any(isinstance(o, (ast.In, ast.NotIn)) for o in c.ops):
+                    for comp in c.comparators:
+                        if isinstance(comp, ast.Name) and comp.id in filled:
+                            read[comp.id] = t
+                elif isinstance(c, ast.Subscript) and isinstance(c.value, ast.Name) and c.value.id in filled and isinstance(c.ctx, ast.Load):
+                    read[c.value.id] = t
+                elif isinstance(c, ast.Call) and isinstance(c.func, ast.Attribute) and c.func.attr in ("get", "count", "index", "isdisjoint", "issubset", "issuperset", "intersection") and isinstance(c.func.value, ast.Name) and c.func.value.id in filled:
+                    read[c.func.value.id] = t
+                elif isinstance(c, ast.Call) and isinstance(c.func, ast.Name) and c.func.id == "len" and c.args and isinstance(c.args[0], ast.Name) and c.args[0].id in filled:
+                    read[c.args[0].id] = t
+    for x in ast.walk(loop):
+        if isinstance(x, ast.Call) and isinstance(x.func, ast.Attribute) and x.func.attr == "setdefault" and isinstance(x.func.value, ast.Name) and len(x.args) == 2:
+            read.setdefault(x.func.value.id, x)
+    # break of this very loop
+    def own_breaks(block) -> list:
+        out = []
+        for st in block:
+            if isinstance(st, ast.Break):
+                out.append(st)
+            elif isinstance(st, (ast.For, ast.While, ast.AsyncFor, ast.FunctionDef)):
+                continue
+            else:
+                for f in ("body", "orelse", "finalbody", "handlers"):
+                    b2 = getattr(st, f, None)
+                    if isinstance(b2, list):
+                        out += own_breaks([h for h in b2 if isinstance(h, ast.stmt)] + [s2 for h in b2 if isinstance(h, ast.ExceptHandler) for s2 in h.body])
+        return out
+
+    if isinstance(loop, (ast.For, ast.While)):
+        for br in own_breaks(loop.body):
+            read.setdefault("<break>", br)
+        # loop-carried scalar read by a guard before its assignment in the iteration
+        first: dict = {}
+        order = []
+        for st in loop.body:
+            for n in ast.walk(st):
+                if isinstance(n, ast.Name):
+                    order.append(n)
+        stored = {n.id for n in order if isinstance(n.ctx, ast.Store)} - {t.id for t in ast.walk(loop.target) if isinstance(t, ast.Name)} if isinstance(loop, ast.For) else set()
+        tests_names = {}
+        for x in ast.walk(loop):
+            if isinstance(x, (ast.If, ast.IfExp)):
+                for n in ast.walk(x.test):
+                    if isinstance(n, ast.Name) and isinstance(n.ctx, ast.Load):
+                        tests_names.setdefault(n.id, x.test)
+        outside = set()  # a value carried from one iteration to the next starts from an assignment before the loop
+        return_read = read
+        for name in sorted(stored & set(tests_names)):
+            if name not in _assigned_outside.get(id(loop), set()):
+                continue
+            occ = sorted([n for n in order if n.id == name], key=lambda n: (n.lineno, n.col_offset))
+            # the first textual occurrence in the body is the read in a test: the value comes from an earlier iteration
+            if occ and isinstance(occ[0].ctx, ast.Load) and any(occ[0] is n for n in ast.walk(tests_names[name])):
+                read.setdefault(name, tests_names[name])
+    return read
+
+
+def _pair_loops(fi) -> list:
+    """[(loop, ordered?, text of the iterable)] for the loops of a function that walk the pairs of a KD-tree query, directly, through
+    list()/tuple()/sorted() wrappers (sa/model.py strips them off the loop header) or through a local bound once to such an expression."""
+    out = []
+    for loop in ast.walk(fi.node):
+        if not isinstance(loop, ast.For):
+            continue
+        it = loop.iter
+        wrappers = []
+        w = getattr(loop, "_order_wrapper", None)
+        if w:
+            wrappers.append(w)
+        for _ in range(4):
+            if isinstance(it, ast.Name):
+                d = [v for s2, v in astq.assignments(fi.node, it.id) if v is not None]
+                if len(d) != 1:
+                    break
+                it = d[0]
+            elif isinstance(it, ast.Call) and isinstance(it.func, ast.Name) and it.func.id in ("sorted", "list", "tuple", "set", "frozenset", "iter", "reversed") and len(it.args) == 1:
+                wrappers.append(it.func.id if not it.keywords or it.func.id != "sorted" else "sorted(key=...)")
+                it = it.args[0]
+            else:
+                break
+        if isinstance(it, ast.Call) and astq.callee_name(it) == "query_pairs":
+            shown = norm(it)[:50]
+            for wname in reversed(wrappers):
+                shown = f"{wname.split('(')[0]}({shown})"
+            # sorted() directly on the set fixes the order (by point index); a later set()/frozenset() forgets it again
+            ordered = "sorted" in wrappers and not any(x in ("set", "frozenset") for x in wrappers[: wrappers.index("sorted")])
+            out.append((loop, ordered, shown))
+    return out
+
+
+def _order_sinks(fi, loop) -> list:
+    """Order-sensitive uses, after the loop, of what the loop appended in visiting order: [(description, node)].
+    A list filled by the loop keeps the visiting order; it carries it into every list filled from it and into Counter(...) (ties of
+    most_common() are in first-insertion order) until something sorts it; a later loop over such a sequence whose iterations are
+    first come, first served (e.g. the greedy edge occupation) turns that order into the result."""
+    body = list(fi.node.body)
+    if loop not in body:
+        return []
+    tainted = {x.func.value.id for x in ast.walk(loop) if isinstance(x, ast.Call) and isinstance(x.func, ast.Attribute) and x.func.attr in ("append", "extend", "insert") and isinstance(x.func.value, ast.Name)}
+    chain = {t: t for t in tainted}
+    sinks = []
+
+    def carries(e: ast.AST):
+        """name of a tainted sequence that `e` walks in its order (not under sorted(...))"""
+        if isinstance(e, ast.Call) and isinstance(e.func, ast.Name) and e.func.id == "sorted":
+            return None
+        if isinstance(e, ast.Name) and e.id in tainted:
+            return e.id
+        if isinstance(e, ast.Call):
+            f = e.func
+            if isinstance(f, ast.Attribute) and f.attr in ("most_common", "items", "keys", "values", "elements") and isinstance(f.value, (ast.Name, ast.Call)):
+                return carries(f.value)
+            if isinstance(f, ast.Name) and f.id in ("Counter", "list", "tuple", "reversed", "enumerate", "iter", "dict", "OrderedDict", "zip") or (isinstance(f, ast.Attribute) and f.attr in ("fromkeys", "chain")):
+                for a in e.args:
+                    r = carries(a)
+                    if r:
+                        return r
+        if isinstance(e, (ast.ListComp, ast.GeneratorExp, ast.DictComp)):
+            for g in e.generators:
+                r = carries(g.iter)
+                if r:
+                    return r
+        return None
+
+    for st in body[body.index(loop) + 1 :]:
+        if isinstance(st, (ast.Assign, ast.AnnAssign)) and st.value is not None:
+            t = st.targets[0] if isinstance(st, ast.Assign) else st.target
+            src = carries(st.value)
+            if isinstance(t, ast.Name):
+                if src:
+                    tainted.add(t.id)
+                    chain[t.id] = f"{chain[src]} -> {t.id}"
+                elif t.id in tainted:
+                    tainted.discard(t.id)
+        elif isinstance(st, ast.For):
+            src = carries(st.iter)
+            if not src:
+                continue
+            _note_outside(fi.node, st)
+            reads = _fcfs_reads(st)
+            if reads:
+                nm = sorted(reads)[0]
+                sinks.append((f"{chain[src]} -> `for {norm(st.target)[:40]} in {norm(st.iter)[:50]}`, whose iterations are first come, first served (`{norm(reads[nm])[:50]}`)", st))
+            for x in ast.walk(st):
+                if isinstance(x, ast.Call) and isinstance(x.func, ast.Attribute) and x.func.attr in ("append", "extend", "insert") and isinstance(x.func.value, ast.Name):
+                    tainted.add(x.func.value.id)
+                    chain.setdefault(x.func.value.id, f"{chain[src]} -> {x.func.value.id}")
+    return sinks
 
 
 def check_visit_order(chk) -> None:
     """A loop over `tree.query_pairs(r)` walks a *set* of index pairs; the order in which CPython iterates that set depends on how
     scipy filled it, i.e. on the KD-tree built from the coordinates, so it changes under a rigid motion although the set does not.
-    That is harmless while every iteration is independent of the others; it decides the result as soon as the body is first come,
-    first served: a guard that reads a container which the same loop fills (F23: `used_atoms` in find_pairs).  Such a loop must visit
-    the pairs in an order that is a function of the set (`sorted(...)`: by point index = by input order)."""
+    That is harmless while every iteration is independent of the others and nothing later depends on the order of what was collected;
+    it decides the result as soon as (a) the body is first come, first served - a guard that reads a container which the same loop
+    fills (F23: `used_atoms` in find_pairs), `setdefault`, a `break`, a running best - or (b) a list the loop filled is consumed in
+    its arrival order by something order-sensitive: Counter(...).most_common() ties followed by a greedy first-come selection.
+    Such a loop must visit the pairs in an order that is a function of the set (`sorted(...)`: by point index = by input order)."""
     repo = chk.repo
     rule = "contact-visit-order"
     n = 0
@@ -402,49 +642,39 @@ def check_visit_order(chk) -> None:
         if not repo.has_func(m, q):
             continue
         fi = repo.func(m, q)
-        for loop in ast.walk(fi.node):
-            if not (isinstance(loop, ast.For) and isinstance(loop.iter, ast.Call) and astq.callee_name(loop.iter) == "query_pairs"):
-                continue
+        for loop, ordered, shown in _pair_loops(fi):
             n += 1
-            filled = set()
-            for x in ast.walk(loop):
-                if isinstance(x, ast.Call) and isinstance(x.func, ast.Attribute) and x.func.attr in ("add", "append", "update", "extend", "setdefault", "insert") and isinstance(x.func.value, ast.Name):
-                    filled.add(x.func.value.id)
-                elif isinstance(x, (ast.Assign, ast.AugAssign)):
-                    for t in x.targets if isinstance(x, ast.Assign) else [x.target]:
-                        if isinstance(t, ast.Subscript) and isinstance(t.value, ast.Name):
-                            filled.add(t.value.id)
-            read = {}
-            for x in ast.walk(loop):
-                tests = []
-                if isinstance(x, (ast.If, ast.IfExp, ast.While)):
-                    tests.append(x.test)
-                elif isinstance(x, ast.comprehension):
-                    tests.extend(x.ifs)
-                for t in tests:
-                    for c in ast.walk(t):
-                        if isinstance(c, ast.Compare) and any(isinstance(o, (ast.In, ast.NotIn)) for o in c.ops):
-                            for comp in c.comparators:
-                                if isinstance(comp, ast.Name) and comp.id in filled:
-                                    read[comp.id] = t
-                        elif isinstance(c, ast.Subscript) and isinstance(c.value, ast.Name) and c.value.id in filled and isinstance(c.ctx, ast.Load):
-                            read[c.value.id] = t
-                        elif isinstance(c, ast.Call) and isinstance(c.func, ast.Attribute) and c.func.attr in ("get", "count", "index") and isinstance(c.func.value, ast.Name) and c.func.value.id in filled:
-                            read[c.func.value.id] = t
-            wrapper = getattr(loop, "_order_wrapper", None)
-            if read and wrapper != "sorted":
+            _note_outside(fi.node, loop)
+            read = _fcfs_reads(loop)
+            if read and not ordered:
                 name = sorted(read)[0]
+                what = "a `break` ends it" if name == "<break>" else f"`{norm(read[name])[:60]}` reads `{name}`, which the same loop fills or carries over"
                 chk.violation(
                     rule,
                     fi.site(loop),
-                    f"`for {norm(loop.target)} in {'' if wrapper is None else wrapper + '('}{norm(loop.iter)[:50]}{'' if wrapper is None else ')'}` walks a set whose iteration order depends on the KD-tree built from the coordinates, and the body is first come, first served "
-                    f"(`{norm(read[name])[:60]}` reads `{name}`, which the same loop fills): a rigid motion of the structure changes which contact wins",
+                    f"`for {norm(loop.target)} in {shown}` walks a set whose iteration order depends on the KD-tree built from the coordinates, and the body is first come, first served "
+                    f"({what}): a rigid motion of the structure changes which contact wins",
                     K(fi, f"visit-order:{name}"),
                 )
-            elif read:
+                continue
+            if not ordered:
+                sinks = _order_sinks(fi, loop)
+                if sinks:
+                    desc, node = sinks[0]
+                    chk.violation(
+                        rule,
+                        fi.site(loop),
+                        f"`for {norm(loop.target)} in {shown}` walks a set whose iteration order depends on the KD-tree built from the coordinates, and what it collects is consumed in that order: {desc}: "
+                        f"with equal contact counts the candidate that came first wins, so a rigid motion of the structure can change the reported pairs",
+                        K(fi, "visit-order:downstream"),
+                    )
+                    continue
+            if read:
                 chk.ok(rule, fi.site(loop), f"first-come-first-served loop ({sorted(read)}) visits the contacts in sorted index order: the order is a function of the contact set, not of the coordinates")
+            elif ordered:
+                chk.ok(rule, fi.site(loop), "the KD-tree pairs are visited in sorted index order")
             else:
-                chk.ok(rule, fi.site(loop), "iterations over the KD-tree pairs are independent of each other (no guard reads a container the loop fills)")
+                chk.ok(rule, fi.site(loop), "iterations over the KD-tree pairs are independent of each other (no guard reads a container the loop fills) and nothing collected in visiting order reaches an order-sensitive use unsorted")
     if n == 0:
         chk.error(rule, "-", "no loop over query_pairs found in find_pairs / find_stackings")
 
